@@ -10,6 +10,10 @@ CHECKS = {
          "Exploration: ~10^7 (quick) parses of ~80k generated grammars per configuration are compared (accept/reject and exact token stream) with the reference semantics evaluated on the unoptimized AST; every short string over each grammar's alphabet is enumerated for a subset. Sampled, not a proof.",
          "Trusts harness/pv/src/refsem.rs as the reading of the documented semantics (calibration and ambiguity decisions in DESIGN.md 3.4), pest::unicode::by_name for Unicode property built-ins, and skips cases the prose leaves undefined (empty-stack POP/PEEK) or that diverge. Grammars touched by the lister rewrite are set aside (C05 finding D7).",
          "DESIGN.md section 4, C01"),
+ "C05": ("metamorphic per-pass equivalence under an independent reference evaluator, exhaustive over all short inputs per generated grammar; restorer checked differentially against the real VM",
+         "Exploration: ~100k generated grammars per configuration (rules shaped like each pass's pattern), each pass applied alone through the cfg hook, before/after compared on every string of length <= 3 (<= 4 thorough) over the grammar's alphabet for every start rule: outcome, end, tokens, final stack. Bounded-exhaustive per grammar, sampled over grammars.",
+         "Trusts refsem.rs on both sides of each comparison (C01 ties it to the VM). Node tags are not compared (placement undocumented). Open finding D7 (lister) is recognised by an exact signature: the pass output equals the documented (x~y)*~x rewrite.",
+         "DESIGN.md section 4, C05"),
  "C10": ("exhaustive small-scope enumeration of strings x offsets x offset pairs + proptest strings, against direct definitions of line/column/line containment",
          "Exploration: all strings of <= 6 symbols (quick) / 8 (thorough) over {a, LF, CR, TAB, e-acute, emoji} with every offset and offset pair, plus random long strings; Position/Span/Pair/Error line-column results and the rendered error text are compared with the definitions. Bounded-exhaustive plus sampled.",
          "Marker alignment is not asserted when a lone CR precedes the offset on its line; empty-span lines() may be empty or the containing line; see DESIGN.md C10.",
